@@ -2,11 +2,13 @@ SPECIFICATION Spec
 CONSTANTS Vals <- ValsA
   W = 8
   MaxDen = 7
+  Degs <- DegsAll
 INVARIANT WitnessInside
 INVARIANT Attained
 INVARIANT EndsInside
 INVARIANT DerivZero
 INVARIANT TVAdditive
+INVARIANT QuadTVAgrees
 INVARIANT TVAtLeastChord
 INVARIANT TVAtMostPolygon
 PROPERTY TVMonotone
